@@ -1693,7 +1693,8 @@ class SQLModel:
         if using is None:
             using = OrderedSet(concat_node.column_names)
         if len(using) < 1:
-            raise ValueError("must select at least one column")
+            # the consumer reads none of the columns (it only counts rows): carry one column
+            using = OrderedSet([concat_node.column_names[0]])
         missing = using - set(concat_node.column_names)
         if len(missing) > 0:
             raise KeyError("referred to unknown columns: " + str(missing))
